@@ -396,6 +396,34 @@ func c09Points(c *Ctx, op uint8) []c09Params {
 			add(c09Params{BC: uint16(bc), HL: 0x4000, DE: 0x4003, A: 0x77, F: 0x00, PC: 0x0100})
 			add(c09Params{BC: uint16(bc), HL: 0xFF00, DE: 0xFEFD, A: 0x77, F: 0xFF, PC: 0x0100, Fill: 1, Plant: bc / 2})
 		}
+		// every count 1..300 x every overlap distance -8..+8, in mid-memory and across the top of the address space
+		for bc := 1; bc <= 300; bc++ {
+			for dist := -8; dist <= 8; dist++ {
+				add(c09Params{BC: uint16(bc), HL: 0x4000, DE: uint16(0x4000 + dist), A: uint8(bc), F: uint8(dist * 17), PC: 0x0100, Fill: 1, Plant: bc - 1})
+				add(c09Params{BC: uint16(bc), HL: 0xFFF0, DE: uint16(0xFFF0 + dist), A: uint8(bc), F: uint8(dist*17 + 1), PC: 0x0100})
+			}
+		}
+		// searches: every position of the match in a 64-byte block, every count around it
+		if kind == 1 {
+			for plant := 0; plant < 64; plant++ {
+				for _, bc := range []int{plant, plant + 1, plant + 2, 64, 0} {
+					if bc < 0 {
+						continue
+					}
+					add(c09Params{BC: uint16(bc), HL: 0x4000, DE: 0x1234, A: 0xC3, F: 0x01, PC: 0x0100, Fill: 1, Plant: plant})
+					add(c09Params{BC: uint16(bc), HL: 0xFFE0, DE: 0x1234, A: 0xC3, F: 0xFE, PC: 0x0100, Fill: 1, Plant: plant})
+				}
+			}
+		}
+	}
+	if !c.Quick() && kind >= 2 {
+		// port forms: every B, three ports, pointers in mid-memory and across the top
+		for b := 0; b < 256; b++ {
+			for _, port := range []uint16{0x00, 0x7F, 0xFF} {
+				add(c09Params{BC: uint16(b)<<8 | port, HL: 0x4000, DE: 0x2222, A: 0x44, F: uint8(b), PC: 0x0100, IOX: uint8(b * 3)})
+				add(c09Params{BC: uint16(b)<<8 | port, HL: 0xFFC0, DE: 0x2222, A: 0x44, F: uint8(^b), PC: 0x0100, IOX: uint8(b*5 + 1)})
+			}
+		}
 	}
 	return out
 }
@@ -406,7 +434,7 @@ func checkC09(c *Ctx) {
 	for _, op := range ops {
 		pts = append(pts, c09Points(c, op)...)
 	}
-	c.Rule = "16 block encodings x parameter lattice (the port forms also on a CPU without IO device, right after another IO-less CPU wrote to the same port number; BC in {0,1,2,3,255,256,257,65535} resp. B in {0,1,2,3,255,128}; HL/DE over W16 and neighbours; overlap distances -3..+3 at 0x4000 and across 0xFFFF; source/destination covering the instruction bytes at PC 0100/FFFE/FFFF; for searches the byte planted at position 0/1/2/last/absent x 6 A values; 3 ports; thorough: BC sweep 4..1024); each point run to completion through real Steps. Every point with BC < 600 again on the package's own MapMemory (destination cells written beforehand, every other source cell never written) and DumbMemory (len 65536, 65536+256, 32768) with DumbIO, handed over unwrapped vs behind opaque wrappers: same final state and device contents; single elements of all 16 encodings over the quick lattice on those device types, also with a port device that re-points CPU.Memory to another bank on every port access. Oracles: closed-form specification of the whole operation (memory image, counters, pointers, PC, flags, port transfers, number of Steps), refz80 in lock-step on every Step, per-Step one-element contract. Non-trivial: every point transfers or compares at least one element (counted)."
+	c.Rule = "16 block encodings x parameter lattice (the port forms also on a CPU without IO device, right after another IO-less CPU wrote to the same port number; BC in {0,1,2,3,255,256,257,65535} resp. B in {0,1,2,3,255,128}; HL/DE over W16 and neighbours; overlap distances -3..+3 at 0x4000 and across 0xFFFF; source/destination covering the instruction bytes at PC 0100/FFFE/FFFF; for searches the byte planted at position 0/1/2/last/absent x 6 A values; 3 ports; thorough: BC sweep 4..1024, every count 1..300 x overlap distance -8..+8 in mid-memory and across FFFF, every match position in a 64-byte block x counts around it, every B x 3 ports for the port forms); each point run to completion through real Steps. Every point with BC < 600 again on the package's own MapMemory (destination cells written beforehand, every other source cell never written) and DumbMemory (len 65536, 65536+256, 32768) with DumbIO, handed over unwrapped vs behind opaque wrappers: same final state and device contents; single elements of all 16 encodings over the quick lattice on those device types, also with a port device that re-points CPU.Memory to another bank on every port access. Oracles: closed-form specification of the whole operation (memory image, counters, pointers, PC, flags, port transfers, number of Steps), refz80 in lock-step on every Step, per-Step one-element contract. Non-trivial: every point transfers or compares at least one element (counted)."
 	c.Bound = "parameter lattice " + c.Tier
 	bg := obsBackground(c)
 	runners := make([]*c09Runner, 16)
